@@ -328,21 +328,13 @@ func C16sched(rep *ev.Report) {
 
 	var scenarios []Scenario
 
-	// core operations: all ordered pairs; value-class operations: with each other and with a few core operations
-	corePartner := map[string]bool{"HashToScalar(M,D[:18])": true, "Element.Subtract(E1)": true, "Element.Multiply(S1)": true, "Scalar.Pow(S2)": true, "E1.Encode()": true, "Scalar.Set(S1).Add(S2)": true}
-
+	// core operations: all ordered pairs; value-class operations: with each other and with a few core operations;
+	// API-coverage operations: with themselves and with those core operations (conc.PairWanted)
 	for a, oa := range conc.Ops {
 		for b, ob := range conc.Ops {
-			va, vb := conc.IsValueClass(oa.Name), conc.IsValueClass(ob.Name)
-
-			switch {
-			case !va && !vb, va && vb:
-			case va && corePartner[ob.Name], vb && corePartner[oa.Name]:
-			default:
-				continue
+			if conc.PairWanted(oa.Name, ob.Name) {
+				scenarios = append(scenarios, Scenario{{a}, {b}})
 			}
-
-			scenarios = append(scenarios, Scenario{{a}, {b}})
 		}
 	}
 
